@@ -248,7 +248,6 @@ func (server *GripServer) BulkAdd(stream gripql.Edit_BulkAddServer) error {
 		// create a BulkAdd stream per graph
 		// close and switch when a new graph is encountered
 		if element.Graph != graphName {
-			close(elementStream)
 			gdb, err := server.getGraphDB(element.Graph)
 			if err != nil {
 				errorCount++
@@ -262,20 +261,23 @@ func (server *GripServer) BulkAdd(stream gripql.Edit_BulkAddServer) error {
 				continue
 			}
 
+			// the element belongs to another (existing) graph: finish the
+			// current per-graph stream and open one for the new graph
+			close(elementStream)
 			graphName = element.Graph
 			elementStream = make(chan *gdbi.GraphElement, 100)
 
 			wg.Add(1)
-			go func() {
-				log.WithFields(log.Fields{"graph": element.Graph}).Info("BulkAdd: streaming elements to graph")
-				err := graph.BulkAdd(elementStream)
+			go func(name string, elements <-chan *gdbi.GraphElement) {
+				log.WithFields(log.Fields{"graph": name}).Info("BulkAdd: streaming elements to graph")
+				err := graph.BulkAdd(elements)
 				if err != nil {
-					log.WithFields(log.Fields{"graph": element.Graph, "error": err}).Error("BulkAdd: error")
+					log.WithFields(log.Fields{"graph": name, "error": err}).Error("BulkAdd: error")
 					// not a good representation of the true number of errors
 					errorCount++
 				}
 				wg.Done()
-			}()
+			}(graphName, elementStream)
 		}
 
 		if element.Vertex != nil {
